@@ -1,5 +1,1278 @@
-//! C07 stub (being written)
+//! C07 — extension types (decimal, ip, datetime, duration) compute exact results.
+//!
+//! Bounded-exhaustive enumeration of constructor argument strings (all strings up to a length
+//! over a small alphabet, boundary templates, product grids, every 1-char deletion /
+//! substitution / insertion of valid strings) and of all pairs / triples over boundary value
+//! sets for every operation. Each case runs on the real code and is compared with the
+//! reference parsers / arithmetic of `refsem::ext` (i128, own calendar, own CIDR math).
+//!
+//! Arrival paths of a constructor string:
+//!   text   `<cedar_policy_core::ast::Expr as FromStr>` + `bind::core_eval`, value read through
+//!          `bind::abs_value` (Debug of the internal representation, not the parser under test)
+//!   rexpr  `cedar_policy::RestrictedExpression::new_{decimal,ip,datetime,duration}` placed in a
+//!          `Context` and read back (value again through `abs_value`)
+//!   api    `cedar_policy::eval_expression` (accepted / near-miss strings, all observers)
+//! Accepted values are additionally observed through functions that do not reuse the parser
+//! on the same string (toMilliseconds, durationSince(epoch), isIpv4/6, isInRange both ways
+//! against the canonical spelling, == canonical, neighbours by lessThan / greaterThan).
+use crate::bind::*;
 use crate::harness::*;
-pub fn run(_tier: Tier, _replay: Option<&str>) -> i32 {
-    2
+use crate::world::*;
+use cedar_policy_core::ast;
+use cedar_policy_core::evaluator::EvaluationError;
+use rayon::prelude::*;
+use refsem::ext as rx;
+use refsem::print::{str_lit, Style};
+use refsem::*;
+use serde_json::{json, Value as J};
+use std::collections::BTreeMap;
+use std::str::FromStr;
+
+const TYS: [&str; 4] = ["decimal", "ip", "datetime", "duration"];
+const DAY: i64 = 86_400_000;
+/// smallest epoch whose `toDate` is representable: -106751991167 days
+const TODATE_MIN: i64 = -106_751_991_167 * DAY;
+
+#[derive(Clone, Debug, Hash, PartialEq, Eq, serde::Serialize, serde::Deserialize)]
+pub enum Case {
+    /// constructor `TYS[ty]` applied to `s`; `near` = produced by a boundary template, grid
+    /// or mutation (as opposed to the all-strings sweep)
+    Ctor { ty: usize, s: String, near: bool },
+    /// an expression over extension values; `group` names the operation (fingerprints)
+    Expr { group: String, e: E },
+}
+
+impl Case {
+    fn text(&self) -> String {
+        match self {
+            Case::Ctor { ty, s, .. } => format!("{}({})", TYS[*ty], str_lit(s, false)),
+            Case::Expr { e, .. } => refsem::print::text(e, &Style::default()),
+        }
+    }
+    fn to_json(&self) -> J {
+        json!({"c": serde_json::to_value(self).unwrap(), "text": self.text()})
+    }
+}
+
+// ---------------------------------------------------------------------------------------------
+// reference side
+// ---------------------------------------------------------------------------------------------
+
+/// reference constructor (refsem parsers; no workaround was needed, see `oracle_selfcheck`)
+fn ref_parse(ty: usize, s: &str) -> Option<ExtVal> {
+    match ty {
+        0 => rx::parse_decimal(s).map(ExtVal::Decimal),
+        1 => rx::parse_ip(s).map(ExtVal::Ip),
+        2 => rx::parse_datetime(s).map(ExtVal::Datetime),
+        _ => rx::parse_duration(s).map(ExtVal::Duration),
+    }
+}
+
+/// closed-form days-from-civil (independent of refsem's summing loop), used to cross-check it
+fn civil_closed(y: i64, m: i64, d: i64) -> i64 {
+    let y = if m <= 2 { y - 1 } else { y };
+    let era = y.div_euclid(400);
+    let yoe = y - era * 400;
+    let mp = (m + 9) % 12;
+    let doy = (153 * mp + 2) / 5 + d - 1;
+    let doe = yoe * 365 + yoe / 4 - yoe / 100 + doy;
+    era * 146_097 + doe - 719_468
+}
+
+/// Hand-derived expectations the reference must satisfy before it is used as an oracle.
+/// A failure here is a machinery error (exit 2), never a verdict.
+fn oracle_selfcheck() -> Result<(), String> {
+    let dec: &[(&str, Option<i64>)] = &[
+        ("0.0", Some(0)),
+        ("-0.0", Some(0)),
+        ("1.5", Some(15_000)),
+        ("-1.5", Some(-15_000)),
+        ("0.0001", Some(1)),
+        ("-0.0001", Some(-1)),
+        ("001.10", Some(11_000)),
+        ("922337203685477.5807", Some(i64::MAX)),
+        ("922337203685477.5808", None),
+        ("-922337203685477.5808", Some(i64::MIN)),
+        ("-922337203685477.5809", None),
+        ("922337203685478.0", None),
+        ("1.00000", None),
+        ("1.", None),
+        (".1", None),
+        ("1", None),
+        ("+1.0", None),
+        (" 1.0", None),
+        ("1.0 ", None),
+        ("1.0\n", None),
+        ("--1.0", None),
+        ("1.-1", None),
+        ("", None),
+    ];
+    for (s, v) in dec {
+        if rx::parse_decimal(s) != *v {
+            return Err(format!("reference parse_decimal({s:?}) = {:?}, documented {:?}", rx::parse_decimal(s), v));
+        }
+    }
+    let dur: &[(&str, Option<i64>)] = &[
+        ("0ms", Some(0)),
+        ("-0ms", Some(0)),
+        ("1d", Some(DAY)),
+        ("1d2h3m4s5ms", Some(DAY + 2 * 3_600_000 + 3 * 60_000 + 4_000 + 5)),
+        ("-1d2h3m4s5ms", Some(-(DAY + 2 * 3_600_000 + 3 * 60_000 + 4_000 + 5))),
+        ("1m1ms", Some(60_001)),
+        ("1ms", Some(1)),
+        ("1m", Some(60_000)),
+        ("9223372036854775807ms", Some(i64::MAX)),
+        ("9223372036854775808ms", None),
+        ("-9223372036854775808ms", Some(i64::MIN)),
+        ("-9223372036854775809ms", None),
+        ("106751991167d7h12m55s807ms", Some(i64::MAX)),
+        ("106751991167d7h12m55s808ms", None),
+        ("-106751991167d7h12m55s808ms", Some(i64::MIN)),
+        ("106751991168d", None),
+        ("", None),
+        ("-", None),
+        ("1", None),
+        ("d", None),
+        ("1h1d", None),
+        ("1d1d", None),
+        ("1ms1s", None),
+        ("+1d", None),
+        ("1 d", None),
+        ("1D", None),
+        ("1d-1h", None),
+    ];
+    for (s, v) in dur {
+        if rx::parse_duration(s) != *v {
+            return Err(format!("reference parse_duration({s:?}) = {:?}, documented {:?}", rx::parse_duration(s), v));
+        }
+    }
+    let dt: &[(&str, Option<i64>)] = &[
+        ("1970-01-01", Some(0)),
+        ("1970-01-01T00:00:00Z", Some(0)),
+        ("1969-12-31T23:59:59.999Z", Some(-1)),
+        ("1970-01-01T00:00:00.001Z", Some(1)),
+        ("1970-01-01T01:00:00+0100", Some(0)),
+        ("1970-01-01T00:00:00+0100", Some(-3_600_000)),
+        ("1970-01-01T00:00:00-0100", Some(3_600_000)),
+        ("2024-01-01", Some(1_704_067_200_000)),
+        ("2024-02-29T12:00:00+0100", Some(1_709_204_400_000)),
+        ("9999-12-31T23:59:59.999Z", Some(253_402_300_799_999)),
+        ("0000-01-01", Some(-62_167_219_200_000)),
+        ("2000-02-29", Some(951_782_400_000)),
+        ("1900-02-29", None),
+        ("2023-02-29", None),
+        ("2024-02-30", None),
+        ("2024-13-01", None),
+        ("2024-00-01", None),
+        ("2024-01-00", None),
+        ("2024-04-31", None),
+        ("2024-01-01T24:00:00Z", None),
+        ("2024-01-01T00:60:00Z", None),
+        ("2024-01-01T00:00:60Z", None),
+        ("2024-01-01T00:00:00", None),
+        ("2024-01-01T00:00:00z", None),
+        ("2024-01-01T00:00:00.99Z", None),
+        ("2024-01-01T00:00:00.9999Z", None),
+        ("2024-01-01T00:00:00+2400", None),
+        ("2024-01-01T00:00:00+0060", None),
+        ("2024-01-01T00:00:00+00:00", None),
+        ("2024-01-01T00:00:00+2359", Some(1_704_067_200_000 - (23 * 3_600_000 + 59 * 60_000))),
+        ("2024-01-01Z", None),
+        ("2024-1-1", None),
+        ("", None),
+    ];
+    for (s, v) in dt {
+        if rx::parse_datetime(s) != *v {
+            return Err(format!("reference parse_datetime({s:?}) = {:?}, documented {:?}", rx::parse_datetime(s), v));
+        }
+    }
+    let v4 = |a: u32, p: u8| Some(IpVal { v6: false, addr: a as u128, prefix: p });
+    let v6 = |a: u128, p: u8| Some(IpVal { v6: true, addr: a, prefix: p });
+    let ip: &[(&str, Option<IpVal>)] = &[
+        ("10.0.0.1", v4(0x0a00_0001, 32)),
+        ("10.0.0.1/8", v4(0x0a00_0001, 8)),
+        ("0.0.0.0/0", v4(0, 0)),
+        ("255.255.255.255/32", v4(0xffff_ffff, 32)),
+        ("255.255.255.255/33", None),
+        ("1.1.1.1/08", None),
+        ("1.1.1.1/00", None),
+        ("1.1.1.1/", None),
+        ("1.1.1.1/a", None),
+        ("01.1.1.1", None),
+        ("256.1.1.1", None),
+        ("1.1.1", None),
+        ("1.1.1.1.1", None),
+        ("::", v6(0, 128)),
+        ("::1", v6(1, 128)),
+        ("1::", v6(1u128 << 112, 128)),
+        ("::/0", v6(0, 0)),
+        ("ff00::/8", v6(0xffu128 << 120, 8)),
+        ("FF00::/8", v6(0xffu128 << 120, 8)),
+        ("1:2:3:4:5:6:7:8", v6(0x0001_0002_0003_0004_0005_0006_0007_0008, 128)),
+        ("1:2:3:4:5:6:7::", v6(0x0001_0002_0003_0004_0005_0006_0007_0000, 128)),
+        ("1:2:3:4:5:6:7:8:9", None),
+        ("1:2:3:4:5:6:7", None),
+        ("1:2:3:4::5:6:7:8", None),
+        ("1::2::3", None),
+        ("12345::", None),
+        ("::ffff:1.2.3.4", None),
+        ("::1.2.3.4", None),
+        ("fe80::1%eth0", None),
+        ("::1/129", None),
+        ("::1/000", None),
+        ("::1/128", v6(1, 128)),
+        (":::", None),
+        ("", None),
+    ];
+    for (s, v) in ip {
+        if rx::parse_ip(s) != *v {
+            return Err(format!("reference parse_ip({s:?}) = {:?}, documented {:?}", rx::parse_ip(s), v));
+        }
+    }
+    // calendar: summing loop of the reference vs closed form, first and last day of every
+    // month of every year 0000..=9999, and month lengths
+    let bad = (0i64..10_000).into_par_iter().find_map_any(|y| {
+        let mut prev_end: Option<i64> = None;
+        for m in 1..=12 {
+            let last = rx::days_in_month(y, m);
+            for d in [1, last] {
+                let a = rx::days_from_civil(y, m, d);
+                let b = civil_closed(y, m, d);
+                if a != b {
+                    return Some(format!("days_from_civil({y},{m},{d}): loop {a} closed form {b}"));
+                }
+            }
+            if let Some(p) = prev_end {
+                if rx::days_from_civil(y, m, 1) != p + 1 {
+                    return Some(format!("month {y}-{m} does not start the day after the previous month ends"));
+                }
+            }
+            prev_end = Some(rx::days_from_civil(y, m, last));
+        }
+        None
+    });
+    if let Some(b) = bad {
+        return Err(b);
+    }
+    // a few operation facts
+    let d = |x: i64| Val::Ext(ExtVal::Datetime(x));
+    let u = |x: i64| Val::Ext(ExtVal::Duration(x));
+    let facts: Vec<(&str, Vec<Val>, R)> = vec![
+        ("toDate", vec![d(-1)], Ok(d(-DAY))),
+        ("toDate", vec![d(-DAY)], Ok(d(-DAY))),
+        ("toDate", vec![d(DAY - 1)], Ok(d(0))),
+        ("toDate", vec![d(i64::MIN)], Err(ErrClass::Extension)),
+        ("toDate", vec![d(TODATE_MIN)], Ok(d(TODATE_MIN))),
+        ("toDate", vec![d(TODATE_MIN - 1)], Err(ErrClass::Extension)),
+        ("toTime", vec![d(-1)], Ok(u(DAY - 1))),
+        ("toTime", vec![d(-DAY)], Ok(u(0))),
+        ("toTime", vec![d(-DAY - 1)], Ok(u(DAY - 1))),
+        ("toSeconds", vec![u(-1999)], Ok(Val::Long(-1))),
+        ("toDays", vec![u(-DAY - 1)], Ok(Val::Long(-1))),
+        ("toDays", vec![u(-DAY + 1)], Ok(Val::Long(0))),
+        ("offset", vec![d(i64::MAX), u(1)], Err(ErrClass::Extension)),
+        ("offset", vec![d(i64::MIN), u(-1)], Err(ErrClass::Extension)),
+        ("offset", vec![d(i64::MAX), u(-1)], Ok(d(i64::MAX - 1))),
+        ("durationSince", vec![d(0), d(i64::MIN)], Err(ErrClass::Extension)),
+        ("durationSince", vec![d(-1), d(i64::MIN)], Ok(u(i64::MAX))),
+        ("durationSince", vec![d(i64::MIN), d(0)], Ok(u(i64::MIN))),
+    ];
+    for (f, args, want) in facts {
+        let got = rx::call(f, &args);
+        if got != want {
+            return Err(format!("reference {f}({args:?}) = {got:?}, expected {want:?}"));
+        }
+    }
+    let ipf = |s: &str| Val::Ext(ExtVal::Ip(rx::parse_ip(s).unwrap()));
+    let ipfacts: Vec<(&str, Vec<Val>, bool)> = vec![
+        ("isLoopback", vec![ipf("127.0.0.1")], true),
+        ("isLoopback", vec![ipf("127.0.0.1/8")], true),
+        ("isLoopback", vec![ipf("127.0.0.1/7")], false),
+        ("isLoopback", vec![ipf("126.255.255.255")], false),
+        ("isLoopback", vec![ipf("128.0.0.0")], false),
+        ("isLoopback", vec![ipf("::1")], true),
+        ("isLoopback", vec![ipf("::1/127")], false),
+        ("isLoopback", vec![ipf("::ffff:7f00:1")], false),
+        ("isMulticast", vec![ipf("224.0.0.0/4")], true),
+        ("isMulticast", vec![ipf("224.0.0.0/3")], false),
+        ("isMulticast", vec![ipf("239.255.255.255")], true),
+        ("isMulticast", vec![ipf("240.0.0.0")], false),
+        ("isMulticast", vec![ipf("223.255.255.255")], false),
+        ("isMulticast", vec![ipf("ff00::/8")], true),
+        ("isMulticast", vec![ipf("ff00::/7")], false),
+        ("isMulticast", vec![ipf("feff::")], false),
+        ("isInRange", vec![ipf("10.0.0.1"), ipf("10.0.0.0/8")], true),
+        ("isInRange", vec![ipf("10.0.0.0/8"), ipf("10.0.0.1")], false),
+        ("isInRange", vec![ipf("10.0.0.0/8"), ipf("10.0.0.0/8")], true),
+        ("isInRange", vec![ipf("10.0.0.0/7"), ipf("10.0.0.0/8")], false),
+        ("isInRange", vec![ipf("11.0.0.0"), ipf("10.0.0.0/8")], false),
+        ("isInRange", vec![ipf("11.0.0.0"), ipf("10.0.0.0/7")], true),
+        ("isInRange", vec![ipf("255.255.255.255"), ipf("0.0.0.0/0")], true),
+        ("isInRange", vec![ipf("::1"), ipf("0.0.0.0/0")], false),
+        ("isInRange", vec![ipf("::1"), ipf("::/0")], true),
+        ("isInRange", vec![ipf("::/0"), ipf("::/0")], true),
+        ("isInRange", vec![ipf("::/0"), ipf("::/1")], false),
+    ];
+    for (f, args, want) in ipfacts {
+        let got = rx::call(f, &args);
+        if got != Ok(Val::Bool(want)) {
+            return Err(format!("reference {f}({args:?}) = {got:?}, expected {want}"));
+        }
+    }
+    Ok(())
+}
+
+// ---------------------------------------------------------------------------------------------
+// implementation side
+// ---------------------------------------------------------------------------------------------
+
+struct Prep {
+    req: cedar_policy::Request,
+    ents: cedar_policy::Entities,
+    rreq: Req,
+    rstore: Store,
+}
+
+impl Prep {
+    fn new() -> Prep {
+        let rreq = Req { principal: ua(), action: view(), resource: dd(), context: BTreeMap::new() };
+        let rstore = Store::default();
+        Prep { req: c_request(&rreq), ents: cedar_policy::Entities::empty(), rreq, rstore }
+    }
+}
+
+fn mismatch_kind(expect: &R, got: &R) -> &'static str {
+    match (expect, got) {
+        (Ok(_), Ok(_)) => "wrong-value",
+        (Err(_), Ok(_)) => "no-error",
+        (Ok(_), Err(_)) => "spurious-error",
+        (Err(_), Err(_)) => "wrong-error-class",
+    }
+}
+
+fn outcome_class(r: &R) -> String {
+    match r {
+        Ok(Val::Bool(b)) => b.to_string(),
+        Ok(v) => v.kind().to_string(),
+        Err(c) => format!("err-{c:?}"),
+    }
+}
+
+/// compare the (lossy) API result with the reference result; None = agree
+fn api_mismatch(ar: &Result<cedar_policy::EvalResult, EvaluationError>, expect: &R) -> Option<&'static str> {
+    use cedar_policy::EvalResult as ER;
+    match (ar, expect) {
+        (Err(e), Err(c)) => {
+            if class_of(e) == *c {
+                None
+            } else {
+                Some("wrong-error-class")
+            }
+        }
+        (Err(_), Ok(_)) => Some("spurious-error"),
+        (Ok(_), Err(_)) => Some("no-error"),
+        (Ok(a), Ok(v)) => {
+            let ok = match (a, v) {
+                (ER::Bool(x), Val::Bool(y)) => x == y,
+                (ER::Long(x), Val::Long(y)) => x == y,
+                (ER::String(x), Val::Str(y)) => x == y,
+                (ER::Set(x), Val::Set(y)) => x.len() == y.len(),
+                (ER::Record(x), Val::Rec(y)) => x.len() == y.len(),
+                (ER::ExtensionValue(_), Val::Ext(_)) => true,
+                _ => false,
+            };
+            if ok {
+                None
+            } else {
+                Some("wrong-value")
+            }
+        }
+    }
+}
+
+type Bad = Vec<(String, String)>;
+
+/// evaluate one expression through text (core evaluator, internal representation) and,
+/// if `api`, through `cedar_policy::eval_expression`; compare with the reference evaluator
+fn check_expr(group: &str, e: &E, api: bool, p: &Prep, l: &mut Local, bad: &mut Bad) -> R {
+    let text = refsem::print::text(e, &Style::default());
+    let expect = refsem::eval(e, &Env::new(&p.rreq, &p.rstore));
+    match <ast::Expr as FromStr>::from_str(&text) {
+        Err(err) => bad.push(("gen:text-rejected".into(), format!("generated text rejected by the parser: {text}: {err}"))),
+        Ok(parsed) => {
+            let got = core_eval(&parsed, &p.req, &p.ents);
+            l.transitions += 1;
+            match abs_result(&got) {
+                Err(inv) => bad.push((format!("{group}:text:repr-invariant"), format!("{inv} (expr {text})"))),
+                Ok(g) => {
+                    if g != expect {
+                        bad.push((format!("{group}:text:{}", mismatch_kind(&expect, &g)), format!("`{text}`: expected {expect:?} got {g:?}")));
+                    }
+                }
+            }
+        }
+    }
+    if api {
+        match cedar_policy::Expression::from_str(&text) {
+            Err(err) => bad.push(("gen:api-text-rejected".into(), format!("Expression::from_str rejected {text}: {err}"))),
+            Ok(ae) => {
+                let ar = cedar_policy::eval_expression(&p.req, &p.ents, &ae);
+                l.transitions += 1;
+                if let Some(k) = api_mismatch(&ar, &expect) {
+                    bad.push((format!("{group}:api:{k}"), format!("eval_expression `{text}`: expected {expect:?} got {:?}", ar.as_ref().map_err(|e| e.to_string()))));
+                }
+            }
+        }
+    }
+    expect
+}
+
+fn ctor_e(ty: usize, s: &str) -> E {
+    E::ext(TYS[ty], vec![E::Str(s.to_string())])
+}
+fn val_e(x: ExtVal) -> E {
+    rx::to_expr(&x)
+}
+fn dt_e(ms: i64) -> E {
+    val_e(ExtVal::Datetime(ms))
+}
+fn dur_e(ms: i64) -> E {
+    val_e(ExtVal::Duration(ms))
+}
+fn dec_e(v: i64) -> E {
+    val_e(ExtVal::Decimal(v))
+}
+fn call(name: &str, args: Vec<E>) -> E {
+    E::ext(name, args)
+}
+
+/// observers of an accepted constructor value `v` built from string `s`
+fn observers(ty: usize, s: &str, v: &ExtVal) -> Vec<(String, E)> {
+    let c = || ctor_e(ty, s);
+    let canon = val_e(v.clone());
+    let mut out: Vec<(String, E)> = Vec::new();
+    let name = TYS[ty];
+    let mut push = |what: &str, e: E| out.push((format!("obs-{name}:{what}"), e));
+    push("eq-canonical", E::bin(BinOp::Eq, c(), canon.clone()));
+    push("eq-canonical-rev", E::bin(BinOp::Eq, canon.clone(), c()));
+    push("set-with-canonical", E::Set(vec![c(), canon.clone()]));
+    match v {
+        ExtVal::Decimal(x) => {
+            push("le-canonical", call("lessThanOrEqual", vec![c(), canon.clone()]));
+            push("ge-canonical", call("greaterThanOrEqual", vec![c(), canon.clone()]));
+            push("lt-canonical", call("lessThan", vec![c(), canon.clone()]));
+            if *x < i64::MAX {
+                push("lt-next", call("lessThan", vec![c(), dec_e(x + 1)]));
+            }
+            if *x > i64::MIN {
+                push("gt-prev", call("greaterThan", vec![c(), dec_e(x - 1)]));
+            }
+        }
+        ExtVal::Ip(_) => {
+            for f in ["isIpv4", "isIpv6", "isLoopback", "isMulticast"] {
+                push(f, call(f, vec![c()]));
+            }
+            push("inrange-canonical", call("isInRange", vec![c(), canon.clone()]));
+            push("canonical-inrange", call("isInRange", vec![canon.clone(), c()]));
+        }
+        ExtVal::Datetime(x) => {
+            push("ms-since-epoch", call("toMilliseconds", vec![call("durationSince", vec![c(), ctor_e(2, "1970-01-01")])]));
+            push("le-canonical", E::bin(BinOp::Le, c(), canon.clone()));
+            push("lt-canonical", E::bin(BinOp::Lt, c(), canon.clone()));
+            push("lt-next", E::bin(BinOp::Lt, c(), dt_e(x + 1)));
+            push("gt-prev", E::bin(BinOp::Gt, c(), dt_e(x - 1)));
+        }
+        ExtVal::Duration(x) => {
+            push("toMilliseconds", call("toMilliseconds", vec![c()]));
+            push("le-canonical", E::bin(BinOp::Le, c(), canon.clone()));
+            push("lt-canonical", E::bin(BinOp::Lt, c(), canon.clone()));
+            if *x < i64::MAX {
+                push("lt-next", E::bin(BinOp::Lt, c(), dur_e(x + 1)));
+            }
+            if *x > i64::MIN {
+                push("gt-prev", E::bin(BinOp::Gt, c(), dur_e(x - 1)));
+            }
+        }
+    }
+    out
+}
+
+fn check_ctor(ty: usize, s: &str, near: bool, p: &Prep, l: &mut Local, bad: &mut Bad) {
+    let name = TYS[ty];
+    let expect_v = ref_parse(ty, s);
+    let expect: R = match &expect_v {
+        Some(v) => Ok(Val::Ext(v.clone())),
+        None => Err(ErrClass::Extension),
+    };
+    l.case(hash_of(&(ty, s)), &format!("ctor-{name}:{}", if expect_v.is_some() { "accept" } else { "reject" }), expect_v.is_some() || near);
+    // path text (+ api for accepted / near-miss strings)
+    let e = ctor_e(ty, s);
+    check_expr(&format!("ctor-{name}"), &e, near || expect_v.is_some(), p, l, bad);
+    // path rexpr: RestrictedExpression constructor -> Context -> read back
+    use cedar_policy::RestrictedExpression as RE;
+    let rexpr = match ty {
+        0 => RE::new_decimal(s),
+        1 => RE::new_ip(s),
+        2 => RE::new_datetime(s),
+        _ => RE::new_duration(s),
+    };
+    let made = cedar_policy::Context::from_pairs([("x".to_string(), rexpr)]);
+    l.transitions += 1;
+    let got: Result<R, String> = match &made {
+        Ok(c) => {
+            let core: &ast::Context = c.as_ref();
+            match core {
+                ast::Context::Value(m) => match m.get("x") {
+                    Some(v) => abs_value(v).map(Ok),
+                    None => Err("context lost its key".into()),
+                },
+                _ => Err("context is not a concrete value".into()),
+            }
+        }
+        Err(cedar_policy::ContextCreationError::Evaluation(e)) => Ok(Err(class_of(e))),
+        Err(other) => Err(format!("context creation failed with a non-evaluation error: {other}")),
+    };
+    match got {
+        Err(m) => bad.push((format!("ctor-{name}:rexpr:repr-invariant"), format!("RestrictedExpression::new_{name}({s:?}) in a Context: {m}"))),
+        Ok(g) => {
+            if g != expect {
+                bad.push((format!("ctor-{name}:rexpr:{}", mismatch_kind(&expect, &g)), format!("RestrictedExpression::new_{name}({s:?}) in a Context: expected {expect:?} got {g:?}")));
+            }
+        }
+    }
+    // observers on accepted values
+    if let Some(v) = &expect_v {
+        for (g, oe) in observers(ty, s, v) {
+            check_expr(&g, &oe, true, p, l, bad);
+        }
+        // the value placed in the context, read by a policy expression
+        if let Ok(c) = made {
+            if let Ok(req) = cedar_policy::Request::new(c_uid(&p.rreq.principal), c_uid(&p.rreq.action), c_uid(&p.rreq.resource), c, None) {
+                let canon = refsem::print::text(&val_e(v.clone()), &Style::default());
+                let text = format!("context.x == {canon} && [context.x, {canon}].containsAll([{}])", Case::Ctor { ty, s: s.to_string(), near }.text());
+                match <ast::Expr as FromStr>::from_str(&text) {
+                    Err(err) => bad.push(("gen:text-rejected".into(), format!("{text}: {err}"))),
+                    Ok(parsed) => {
+                        let r = core_eval(&parsed, &req, &p.ents);
+                        l.transitions += 1;
+                        match abs_result(&r) {
+                            Ok(Ok(Val::Bool(true))) => {}
+                            other => bad.push((format!("ctor-{name}:rexpr-context:wrong-value"), format!("with context.x = RestrictedExpression::new_{name}({s:?}): `{text}` gave {other:?}, expected true"))),
+                        }
+                    }
+                }
+            }
+        }
+    }
+}
+
+fn check_case(c: &Case, p: &Prep, l: &mut Local) -> Bad {
+    let mut bad = Vec::new();
+    match c {
+        Case::Ctor { ty, s, near } => check_ctor(*ty, s, *near, p, l, &mut bad),
+        Case::Expr { group, e } => {
+            let expect = refsem::eval(e, &Env::new(&p.rreq, &p.rstore));
+            l.case(hash_of(c), &format!("{group}:{}", outcome_class(&expect)), true);
+            check_expr(group, e, true, p, l, &mut bad);
+        }
+    }
+    bad
+}
+
+// ---------------------------------------------------------------------------------------------
+// generators: constructor strings
+// ---------------------------------------------------------------------------------------------
+
+fn all_strings(alpha: &[char], max: usize) -> Vec<String> {
+    let mut out = vec![String::new()];
+    let mut frontier = vec![String::new()];
+    for _ in 0..max {
+        let mut next = Vec::with_capacity(frontier.len() * alpha.len());
+        for f in &frontier {
+            for a in alpha {
+                let mut q = f.clone();
+                q.push(*a);
+                next.push(q);
+            }
+        }
+        out.extend(next.iter().cloned());
+        frontier = next;
+    }
+    out
+}
+
+/// every 1-char deletion, substitution and insertion (alphabet `alpha`) of `s`
+fn mutations(s: &str, alpha: &str) -> Vec<String> {
+    let cs: Vec<char> = s.chars().collect();
+    let mut out = Vec::new();
+    for i in 0..cs.len() {
+        let mut d = cs.clone();
+        d.remove(i);
+        out.push(d.iter().collect());
+        for a in alpha.chars() {
+            if a != cs[i] {
+                let mut x = cs.clone();
+                x[i] = a;
+                out.push(x.iter().collect());
+            }
+        }
+    }
+    for i in 0..=cs.len() {
+        for a in alpha.chars() {
+            let mut x = cs.clone();
+            x.insert(i, a);
+            out.push(x.iter().collect());
+        }
+    }
+    out
+}
+
+fn decimal_templates() -> Vec<String> {
+    let ints = [
+        "0",
+        "1",
+        "92233720368547",
+        "922337203685476",
+        "922337203685477",
+        "922337203685478",
+        "0922337203685477",
+        "00000000000000000000922337203685477",
+        "1000000000000000",
+        "9223372036854775807",
+        "9223372036854775808",
+        "18446744073709551615",
+        "18446744073709551616",
+        "99999999999999999999",
+        "100000000000000000000",
+        "000000000000000000000000000001",
+    ];
+    let fracs = ["", "0", "5", "58", "580", "5806", "5807", "5808", "5809", "9999", "0000", "58070", "58080", "00000", "000000", "0001", "00001"];
+    let signs = ["", "-", "+", "--", " -", "- "];
+    let mut out = Vec::new();
+    for sg in signs {
+        for i in ints {
+            for f in fracs {
+                out.push(format!("{sg}{i}.{f}"));
+            }
+            out.push(format!("{sg}{i}"));
+        }
+        out.push(format!("{sg}.5"));
+        out.push(format!("{sg}."));
+    }
+    for s in [
+        "1.0\n", "\n1.0", "1.0\r\n", "1.0\0", "1.0 ", " 1.0", "1 .0", "1. 0", "1,0", "1.0.0", "1..0", "1e3", "1.0e3", "1.0E3", "0x1.0", "1_000.0", "1.0_0", "１.０", "١.٢", "1.٢", "١.0", "NaN", "inf", "-inf", "∞", "1.0f", "1.0d",
+        "😀.0", "1/2", "1.0\t", "\"1.0\"", "\\1.0", "1.\\0",
+    ] {
+        out.push(s.to_string());
+    }
+    for v in ["0.0", "-1.5", "12.3456", "922337203685477.5807", "-922337203685477.5808", "-0.0001"] {
+        out.extend(mutations(v, "0159-.+ a"));
+    }
+    out
+}
+
+fn duration_templates() -> Vec<String> {
+    let units: [(&str, i128); 5] = [("d", 86_400_000), ("h", 3_600_000), ("m", 60_000), ("s", 1000), ("ms", 1)];
+    let max = i64::MAX as i128;
+    let mut out: Vec<String> = Vec::new();
+    // per-unit limits
+    for (u, m) in units {
+        let q = max / m;
+        for n in [q - 1, q, q + 1, q + 2, (max + 1) / m, u64::MAX as i128 / m, u64::MAX as i128 / m + 1] {
+            out.push(format!("{n}{u}"));
+            out.push(format!("-{n}{u}"));
+            out.push(format!("000{n}{u}"));
+        }
+        for n in ["18446744073709551615", "18446744073709551616", "99999999999999999999", "100000000000000000000000000", "0", "00", "1", "00000000000000000000000001"] {
+            out.push(format!("{n}{u}"));
+            out.push(format!("-{n}{u}"));
+        }
+    }
+    // decompositions of totals around the limits, greedy and with a huge low unit
+    let decomp = |t: i128| -> String {
+        let mut r = t;
+        let mut s = String::new();
+        for (u, m) in units {
+            let q = r / m;
+            r -= q * m;
+            s.push_str(&format!("{q}{u}"));
+        }
+        s
+    };
+    for t in [max - 1, max, max + 1, max + 2] {
+        out.push(decomp(t));
+        out.push(format!("-{}", decomp(t)));
+        for (hi, (u, m)) in units.iter().enumerate().take(4) {
+            for (lo_u, lo_m) in units.iter().skip(hi + 1) {
+                // 1 high unit + the rest in one lower unit (only when exactly representable)
+                let rest = t - m;
+                if rest % lo_m == 0 {
+                    out.push(format!("1{u}{}{lo_u}", rest / lo_m));
+                    out.push(format!("-1{u}{}{lo_u}", rest / lo_m));
+                }
+            }
+        }
+    }
+    // order and repetition
+    for i in 0..5 {
+        for j in 0..5 {
+            out.push(format!("1{}2{}", units[i].0, units[j].0));
+            out.push(format!("-1{}2{}", units[i].0, units[j].0));
+            for k in 0..5 {
+                out.push(format!("1{}2{}3{}", units[i].0, units[j].0, units[k].0));
+            }
+        }
+    }
+    for s in [
+        "", "-", "--", "--1s", "+1s", "-+1s", "1", "-1", "d", "ms", "-ms", "1 d", " 1d", "1d ", "1d\n", "\n1d", "1D", "1MS", "1Ms", "1mS", "1.5s", "1,5s", "1us", "1ns", "1w", "1y", "1sec", "1min", "1d-1h", "1d 1h", "1d,1h", "-1d-1h",
+        "1d+1h", "١s", "1ｓ", "1µs", "0d0h0m0s0ms", "-0d0h0m0s0ms", "1d2h3m4s5ms", "-1d2h3m4s5ms", "1m2ms", "1ms2m", "1mss", "1msms", "1sm", "1dh", "1d2", "1d2h3", "d1", "1e3ms", "0x1ms", "1_000ms", "1d\0", "😀", "1😀",
+        "24h", "1440m", "86400s", "86400000ms", "23h59m60s", "23h59m59s1000ms",
+    ] {
+        out.push(s.to_string());
+    }
+    for v in ["1d2h3m4s5ms", "-1d2h3m4s5ms", "106751991167d7h12m55s807ms", "-106751991167d7h12m55s808ms", "9223372036854775807ms", "1s"] {
+        out.extend(mutations(v, "019dhms- "));
+    }
+    out
+}
+
+fn datetime_grid(tier: Tier) -> Vec<String> {
+    let years: &[&str] = &["0000", "0001", "1969", "1970", "1900", "2000", "2024", "9999"];
+    let months = ["00", "01", "02", "12", "13"];
+    let days = ["00", "01", "28", "29", "30", "31", "32"];
+    let hh = ["00", "23", "24"];
+    let mm = ["00", "59", "60"];
+    let ss = ["00", "59", "60"];
+    let mut times: Vec<String> = vec![String::new()];
+    for h in hh {
+        for m in mm {
+            for s in ss {
+                times.push(format!("T{h}:{m}:{s}"));
+            }
+        }
+    }
+    let mss = ["", ".000", ".999", ".99", ".9999"];
+    let zones = ["Z", "+0000", "-0000", "+2359", "-2359", "+2400", "+0060", "", "+00:00", "z"];
+    // quick: the same grid with 4 years; every other dimension complete
+    let years: &[&str] = tier.pick(&["0000", "1969", "2024", "9999"][..], years);
+    let mut out = Vec::new();
+    for y in years {
+        for mo in months {
+            for d in days {
+                for t in &times {
+                    for ms in mss {
+                        for z in zones {
+                            out.push(format!("{y}-{mo}-{d}{t}{ms}{z}"));
+                        }
+                    }
+                }
+            }
+        }
+    }
+    out
+}
+
+fn datetime_templates() -> Vec<String> {
+    let valid = [
+        "1970-01-01",
+        "2024-02-29",
+        "0000-01-01",
+        "9999-12-31",
+        "1969-12-31",
+        "1970-01-01T00:00:00Z",
+        "2024-02-29T23:59:59Z",
+        "9999-12-31T23:59:59.999Z",
+        "0000-01-01T00:00:00.000Z",
+        "2024-01-01T12:34:56.789Z",
+        "2024-01-01T00:00:00+0000",
+        "2024-01-01T00:00:00-0000",
+        "2024-06-15T10:20:30+2359",
+        "2024-06-15T10:20:30-2359",
+        "2024-06-15T10:20:30.123+0530",
+        "2024-06-15T10:20:30.999-0800",
+        "1969-12-31T23:59:59.999Z",
+        "2000-02-29T00:00:00Z",
+        "1900-02-28T23:59:59-0001",
+        "9999-12-31T23:59:59.999-2359",
+        "0000-01-01T00:00:00.000+2359",
+    ];
+    let mut out: Vec<String> = Vec::new();
+    for v in valid {
+        out.push(v.to_string());
+        out.extend(mutations(v, "0123569-:.TZ+tz a"));
+    }
+    // every month end of leap / non-leap / century years, +-1 day
+    for y in ["1900", "2000", "2023", "2024", "2100", "0000", "0004", "0100", "0400", "9999"] {
+        for m in 1..=12 {
+            for d in 27..=32 {
+                out.push(format!("{y}-{m:02}-{d:02}"));
+                out.push(format!("{y}-{m:02}-{d:02}T23:59:59.999Z"));
+            }
+        }
+    }
+    // all offsets hh x mm on boundary values
+    for sign in ["+", "-"] {
+        for h in ["00", "01", "09", "10", "12", "14", "23", "24", "25", "99"] {
+            for m in ["00", "01", "30", "45", "59", "60", "99"] {
+                out.push(format!("1970-01-01T00:00:00{sign}{h}{m}"));
+                out.push(format!("0000-01-01T00:00:00.000{sign}{h}{m}"));
+                out.push(format!("9999-12-31T23:59:59.999{sign}{h}{m}"));
+            }
+        }
+    }
+    for s in [
+        "", "T", "Z", "1970", "1970-01", "1970-01-01T", "1970-01-01T00", "1970-01-01T00:00", "1970-01-01T00:00Z", "1970-01-01 00:00:00Z", "1970-01-01T00:00:00 Z", "1970-01-01T00:00:00Z ", " 1970-01-01", "1970-01-01\n",
+        "1970-01-01T00:00:00Z\n", "19700101", "1970/01/01", "70-01-01", "01970-01-01", "+1970-01-01", "-1970-01-01", "-0001-01-01", "10000-01-01", "1970-1-1", "1970-01-1", "1970-001-01", "1970-01-01T0:0:0Z", "1970-01-01T00:00:00.0Z",
+        "1970-01-01T00:00:00.00Z", "1970-01-01T00:00:00.0000Z", "1970-01-01T00:00:00,000Z", "1970-01-01T00:00:00.000", "1970-01-01T00:00:00.Z", "1970-01-01T00:00:00+00", "1970-01-01T00:00:00+000", "1970-01-01T00:00:00+00000",
+        "1970-01-01T00:00:00+00:00", "1970-01-01T00:00:00UTC", "1970-01-01T00:00:00GMT", "1970-01-01T00:00:00ZZ", "1970-01-01T00:00:00Z+0000", "1970-01-01T00:00:00+0000Z", "1970-01-01t00:00:00Z", "1970-01-01T00:00:00z", "1970-01-01T00-00-00Z",
+        "1970-01-01T00:00:60Z", "2016-12-31T23:59:60Z", "1970-01-01T24:00:00Z", "1970-01-01T23:59:59.999+2359", "１９７０-01-01", "١٩٧٠-01-01", "1970-01-01T٠٠:00:00Z", "1970-01-01😀", "😀", "1970-01-01T00:00:00.000😀", "1970-01-0\u{661}",
+    ] {
+        out.push(s.to_string());
+    }
+    out
+}
+
+fn ip_grid(tier: Tier) -> Vec<String> {
+    let oct = ["0", "1", "9", "10", "127", "128", "224", "239", "240", "255", "256", "00", "01"];
+    // quick: the two middle octets range over a cut of the set
+    let mid: &[&str] = tier.pick(&["0", "10", "255", "256", "01"][..], &oct[..]);
+    let prefixes = ["", "/0", "/8", "/24", "/32", "/33", "/00", "/08", "/", "/a"];
+    let mut out = Vec::new();
+    for a in oct {
+        for b in mid {
+            for c in mid {
+                for d in oct {
+                    for p in prefixes {
+                        out.push(format!("{a}.{b}.{c}.{d}{p}"));
+                    }
+                }
+            }
+        }
+    }
+    out
+}
+
+fn ip_templates(tier: Tier) -> Vec<String> {
+    let mut out: Vec<String> = Vec::new();
+    let v6 = [
+        "::", "::1", "1::", "::2", "1::1", "1:2:3:4:5:6:7:8", "1:2:3:4:5:6:7:8:9", "1:2:3:4:5:6:7", "1:2:3:4:5:6:7::", "::2:3:4:5:6:7:8", "1:2:3:4::5:6:7:8", "1:2:3::5:6:7:8", "1:2:3:4:5:6:7:8::", "::1:2:3:4:5:6:7:8", "1::2::3", "::1::",
+        "12345::", "::12345", "::ffff:1.2.3.4", "::1.2.3.4", "1:2:3:4:5:6:1.2.3.4", "64:ff9b::10.0.0.1", "::ffff:a00:1", "::ffff:7f00:1", "fe80::1%eth0", "fe80::1%1", "FF00::", "ff00::", "Ff00::aB", "ff01::1", "feff::", "fe00::", "ffff::",
+        "0000:0000:0000:0000:0000:0000:0000:0000", "ffff:ffff:ffff:ffff:ffff:ffff:ffff:ffff", "ABCD:EF01:2345:6789:ABCD:EF01:2345:6789", "abcd:ef01:2345:6789:abcd:ef01:2345:6789", "0:0:0:0:0:0:0:1", "0:0:0:0:0:0:0:0", "00000::", ":::", ":1", "1:", ":",
+        "::g", "::-1", "[::1]", " ::1", "::1 ", "::1\n", "1:2:3:4:5:6:7:", ":2:3:4:5:6:7:8", "1:2:3:4:5:6::7:8", "::0001", "::00001", "0::0", "0::", "1:2::", "::7:8",
+    ];
+    let p6 = ["", "/0", "/1", "/7", "/8", "/9", "/64", "/127", "/128", "/129", "/000", "/08", "/064", "/0128", "/256", "/999", "/1000", "/", "/a", "/-1", "/+8", "/ 8", "/8 ", "/8/8", "//8"];
+    for a in v6 {
+        for p in p6 {
+            out.push(format!("{a}{p}"));
+        }
+    }
+    let v4 = [
+        "0.0.0.0", "1.2.3.4", "127.0.0.1", "255.255.255.255", "1.2.3", "1.2.3.4.5", "1.2.3.", ".1.2.3", "1..2.3", "1.2.3.4.", "1.2.3.04", "1.2.3.004", "1.2.3.0004", "1.2.3.256", "1.2.3.999", "1.2.3.1000", "1.2.3.-1", "1.2.3.+1", "1.2.3.0x1", "1.2.3.a",
+        "0x7f.0.0.1", "127.1", "2130706433", "1.2.3.4:80", "1,2,3,4", " 1.2.3.4", "1.2.3.4 ", "1.2.3.4\n", "1. 2.3.4", "١.2.3.4", "１.2.3.4", "1.2.3.4😀", "😀", "", "/", "/8", "localhost",
+    ];
+    let p4 = ["", "/0", "/1", "/3", "/4", "/5", "/7", "/8", "/9", "/24", "/31", "/32", "/33", "/00", "/08", "/032", "/64", "/128", "/255", "/256", "/", "/a", "/-1", "/+8", "/ 8", "/8 ", "/8/8", "//8", "/٨", "/８"];
+    for a in v4 {
+        for p in p4 {
+            out.push(format!("{a}{p}"));
+        }
+    }
+    for v in ["10.0.0.1", "10.0.0.1/32", "255.255.255.255/0", "::1", "ff00::/8", "1:2:3:4:5:6:7:8/128", "abcd:ef01:2345:6789:ABCD:EF01:2345:6789/128", "::ffff:a00:1", "1::8/64"] {
+        out.extend(mutations(v, "0129afF:./g "));
+    }
+    // all short strings over the structural alphabet
+    let n = tier.pick(5, 6);
+    out.extend(all_strings(&['0', '1', 'f', ':', '.', '/'], n));
+    out
+}
+
+pub fn gen_ctor(tier: Tier) -> Vec<Case> {
+    let n = tier.pick(5, 6);
+    let mut out: Vec<Case> = Vec::new();
+    let mut push = |ty: usize, v: Vec<String>, near: bool, out: &mut Vec<Case>| {
+        for s in v {
+            out.push(Case::Ctor { ty, s, near });
+        }
+    };
+    push(0, all_strings(&['0', '1', '9', '-', '.', '+', ' ', 'a'], n), false, &mut out);
+    push(0, decimal_templates(), true, &mut out);
+    push(3, all_strings(&['0', '1', '9', 'd', 'h', 'm', 's', '-'], n), false, &mut out);
+    push(3, duration_templates(), true, &mut out);
+    push(2, datetime_grid(tier), true, &mut out);
+    push(2, datetime_templates(), true, &mut out);
+    push(1, ip_grid(tier), true, &mut out);
+    push(1, ip_templates(tier), true, &mut out);
+    // every string is also fed to the three constructors it was not written for (a valid
+    // duration is not a decimal ...): templates only
+    let mut cross: Vec<Case> = Vec::new();
+    for (ty, v) in [(0usize, decimal_templates()), (3, duration_templates()), (2, datetime_templates())] {
+        for s in v.into_iter().take(400) {
+            for other in 0..4 {
+                if other != ty {
+                    cross.push(Case::Ctor { ty: other, s: s.clone(), near: true });
+                }
+            }
+        }
+    }
+    out.extend(cross);
+    out
+}
+
+// ---------------------------------------------------------------------------------------------
+// generators: operations over boundary value sets
+// ---------------------------------------------------------------------------------------------
+
+fn dt_values() -> Vec<i64> {
+    vec![i64::MIN, i64::MIN + 1, TODATE_MIN - 1, TODATE_MIN, TODATE_MIN + 1, -DAY - 1, -DAY, -DAY + 1, -1, 0, 1, DAY - 1, DAY, DAY + 1, i64::MAX - 1, i64::MAX]
+}
+
+fn dur_values() -> Vec<i64> {
+    let mut v = dt_values();
+    v.extend([-3_600_000, -60_000, -1000, -999, 999, 1000, 59_999, 60_000, 3_599_999, 3_600_000, -1999, 1999]);
+    v
+}
+
+fn dec_values() -> Vec<i64> {
+    vec![i64::MIN, i64::MIN + 1, -10_001, -10_000, -9_999, -5_000, -1, 0, 1, 5_000, 9_999, 10_000, 10_001, i64::MAX - 1, i64::MAX]
+}
+
+fn ip_values() -> Vec<&'static str> {
+    vec![
+        "0.0.0.0/0", "0.0.0.0", "0.0.0.0/1", "9.255.255.255", "10.0.0.0/8", "10.0.0.1", "10.0.0.1/8", "10.0.0.0/24", "10.0.0.255", "10.0.1.0", "10.0.0.0/31", "10.0.0.1/31", "10.255.255.255", "11.0.0.0", "10.0.0.0/7", "126.255.255.255", "127.0.0.0",
+        "127.0.0.0/8", "127.0.0.1", "127.0.0.1/7", "127.0.0.1/9", "127.255.255.255", "128.0.0.0", "128.0.0.0/1", "223.255.255.255", "224.0.0.0", "224.0.0.0/4", "224.0.0.0/3", "224.0.0.1/5", "239.255.255.255", "240.0.0.0", "255.255.255.255",
+        "255.255.255.255/0", "255.255.255.255/31", "::/0", "::", "::/127", "::/1", "::1", "::1/127", "::2", "8000::/1", "7fff:ffff:ffff:ffff:ffff:ffff:ffff:ffff", "8000::", "ff00::/8", "ff00::", "ff00::/7", "ff00::/9", "ff01::1",
+        "feff:ffff:ffff:ffff:ffff:ffff:ffff:ffff", "ffff:ffff:ffff:ffff:ffff:ffff:ffff:ffff", "ffff:ffff:ffff:ffff:ffff:ffff:ffff:ffff/0", "::ffff:7f00:1", "::ffff:a00:1", "::7f00:1", "::a00:1", "1::/64", "1::1", "1:0:0:1::",
+    ]
+}
+
+fn ip_e(s: &str) -> E {
+    ctor_e(1, s)
+}
+
+const RELS: [BinOp; 6] = [BinOp::Lt, BinOp::Le, BinOp::Gt, BinOp::Ge, BinOp::Eq, BinOp::Neq];
+const CONVS: [&str; 5] = ["toMilliseconds", "toSeconds", "toMinutes", "toHours", "toDays"];
+
+pub fn gen_ops(tier: Tier) -> Vec<Case> {
+    let mut out: Vec<Case> = Vec::new();
+    let mut push = |g: &str, e: E| out.push(Case::Expr { group: g.to_string(), e });
+    let dts = dt_values();
+    let durs = dur_values();
+    let decs = dec_values();
+    let ips = ip_values();
+    // operands evaluate to the intended values
+    for x in &dts {
+        push("operand-datetime", dt_e(*x));
+    }
+    for x in &durs {
+        push("operand-duration", dur_e(*x));
+    }
+    for x in &decs {
+        push("operand-decimal", dec_e(*x));
+    }
+    for s in &ips {
+        push("operand-ip", ip_e(s));
+    }
+    // ---- decimal
+    for a in &decs {
+        for b in &decs {
+            for f in ["lessThan", "lessThanOrEqual", "greaterThan", "greaterThanOrEqual"] {
+                push(&format!("dec-{f}"), call(f, vec![dec_e(*a), dec_e(*b)]));
+            }
+            for op in RELS {
+                push(&format!("dec-rel-{op:?}"), E::bin(op, dec_e(*a), dec_e(*b)));
+            }
+            for c in &decs {
+                push("dec-set3", E::Set(vec![dec_e(*a), dec_e(*b), dec_e(*c)]));
+                push("dec-set-contains", E::bin(BinOp::Contains, E::Set(vec![dec_e(*a), dec_e(*b)]), dec_e(*c)));
+            }
+        }
+    }
+    // ---- ip
+    for a in &ips {
+        for f in ["isIpv4", "isIpv6", "isLoopback", "isMulticast"] {
+            push(&format!("ip-{f}"), call(f, vec![ip_e(a)]));
+        }
+        for b in &ips {
+            push("ip-isInRange", call("isInRange", vec![ip_e(a), ip_e(b)]));
+            push("ip-eq", E::bin(BinOp::Eq, ip_e(a), ip_e(b)));
+            push("ip-set2", E::Set(vec![ip_e(a), ip_e(b)]));
+            push("ip-rel-Lt", E::bin(BinOp::Lt, ip_e(a), ip_e(b)));
+        }
+    }
+    // triples: ranges nested three deep and sets; quick uses every other value for the third
+    let step = tier.pick(3, 1);
+    for a in &ips {
+        for b in &ips {
+            for c in ips.iter().step_by(step) {
+                push(
+                    "ip-isInRange-chain",
+                    E::and(E::and(call("isInRange", vec![ip_e(a), ip_e(b)]), call("isInRange", vec![ip_e(b), ip_e(c)])), E::not(call("isInRange", vec![ip_e(a), ip_e(c)]))),
+                );
+                push("ip-set-contains", E::bin(BinOp::Contains, E::Set(vec![ip_e(a), ip_e(b)]), ip_e(c)));
+            }
+        }
+    }
+    // ---- datetime / duration
+    for a in &dts {
+        push("dt-toDate", call("toDate", vec![dt_e(*a)]));
+        push("dt-toTime", call("toTime", vec![dt_e(*a)]));
+        push("dt-toDate-toTime", call("toTime", vec![call("toDate", vec![dt_e(*a)])]));
+        push("dt-toDate-plus-toTime", E::bin(BinOp::Eq, call("offset", vec![call("toDate", vec![dt_e(*a)]), call("toTime", vec![dt_e(*a)])]), dt_e(*a)));
+        for f in CONVS {
+            push(&format!("dt-toTime-{f}"), call(f, vec![call("toTime", vec![dt_e(*a)])]));
+        }
+        for b in &dts {
+            push("dt-durationSince", call("durationSince", vec![dt_e(*a), dt_e(*b)]));
+            for op in RELS {
+                push(&format!("dt-rel-{op:?}"), E::bin(op, dt_e(*a), dt_e(*b)));
+            }
+            for f in CONVS {
+                push(&format!("dt-durationSince-{f}"), call(f, vec![call("durationSince", vec![dt_e(*a), dt_e(*b)])]));
+            }
+            push("dt-set2", E::Set(vec![dt_e(*a), dt_e(*b)]));
+        }
+        for d in &durs {
+            push("dt-offset", call("offset", vec![dt_e(*a), dur_e(*d)]));
+            push("dt-offset-toDate", call("toDate", vec![call("offset", vec![dt_e(*a), dur_e(*d)])]));
+            push("dt-offset-toTime", call("toTime", vec![call("offset", vec![dt_e(*a), dur_e(*d)])]));
+            push("dt-rel-mixed", E::bin(BinOp::Lt, dt_e(*a), dur_e(*d)));
+            push("dt-eq-mixed", E::bin(BinOp::Eq, dt_e(*a), dur_e(*d)));
+        }
+    }
+    for a in &durs {
+        for f in CONVS {
+            push(&format!("dur-{f}"), call(f, vec![dur_e(*a)]));
+        }
+        for b in &durs {
+            for op in RELS {
+                push(&format!("dur-rel-{op:?}"), E::bin(op, dur_e(*a), dur_e(*b)));
+            }
+            push("dur-set2", E::Set(vec![dur_e(*a), dur_e(*b)]));
+        }
+    }
+    // triples
+    for a in &dts {
+        for d in &durs {
+            for b in &dts {
+                let off = || call("offset", vec![dt_e(*a), dur_e(*d)]);
+                push("tri-offset-durationSince", call("durationSince", vec![off(), dt_e(*b)]));
+                push("tri-durationSince-offset", call("durationSince", vec![dt_e(*b), off()]));
+                push("tri-offset-lt", E::bin(BinOp::Lt, off(), dt_e(*b)));
+                push("tri-offset-le", E::bin(BinOp::Le, off(), dt_e(*b)));
+                push("tri-offset-eq", E::bin(BinOp::Eq, off(), dt_e(*b)));
+                let since = || call("durationSince", vec![dt_e(*a), dt_e(*b)]);
+                push("tri-durationSince-lt", E::bin(BinOp::Lt, since(), dur_e(*d)));
+                push("tri-durationSince-le", E::bin(BinOp::Le, since(), dur_e(*d)));
+                push("tri-durationSince-eq", E::bin(BinOp::Eq, since(), dur_e(*d)));
+                push("tri-offset-back", call("offset", vec![dt_e(*b), since()]));
+            }
+            for d2 in &durs {
+                push("tri-offset-offset", call("offset", vec![call("offset", vec![dt_e(*a), dur_e(*d)]), dur_e(*d2)]));
+            }
+        }
+    }
+    // ---- kinds: every function on every kind of receiver / argument (type errors, never
+    // another class; equality is total)
+    let reps: Vec<(&str, E)> = vec![
+        ("decimal", dec_e(15_000)),
+        ("ip", ip_e("10.0.0.1")),
+        ("datetime", dt_e(DAY)),
+        ("duration", dur_e(1000)),
+        ("long", E::Long(1)),
+        ("string", E::str("1.0")),
+        ("bool", E::Bool(true)),
+        ("set", E::Set(vec![dec_e(1)])),
+        ("bad-decimal", ctor_e(0, "1")),
+        ("bad-duration", ctor_e(3, "")),
+    ];
+    for (fname, arity) in rx::EXT_FUNCS {
+        if rx::is_constructor(fname) {
+            for (k, x) in &reps {
+                push(&format!("kind-{fname}-{k}"), call(fname, vec![x.clone()]));
+            }
+        } else if *arity == 1 {
+            for (k, x) in &reps {
+                push(&format!("kind-{fname}-{k}"), call(fname, vec![x.clone()]));
+            }
+        } else {
+            for (k, x) in &reps {
+                for (k2, y) in &reps {
+                    push(&format!("kind-{fname}-{k}-{k2}"), call(fname, vec![x.clone(), y.clone()]));
+                }
+            }
+        }
+    }
+    for (k, x) in &reps {
+        for (k2, y) in &reps {
+            for op in [BinOp::Lt, BinOp::Le, BinOp::Eq] {
+                push(&format!("kind-{op:?}-{k}-{k2}"), E::bin(op, x.clone(), y.clone()));
+            }
+        }
+    }
+    // ---- equality by represented value across spellings, also inside sets
+    let spell: [(usize, &[&str]); 4] = [
+        (
+            0,
+            &[
+                "1.0", "1.00", "1.000", "1.0000", "01.0", "001.00", "1.0001", "-0.0", "0.0", "0.0000", "-0.0000", "00.00", "0.1", "0.10", "0.1000", "-1.5", "-1.50", "-01.5000", "1.5", "922337203685477.5807", "0922337203685477.5807",
+                "-922337203685477.5808", "1.00000", "1",
+            ],
+        ),
+        (
+            1,
+            &[
+                "10.0.0.1", "10.0.0.1/32", "10.0.0.0/8", "10.0.0.1/8", "10.0.0.0/31", "10.0.0.1/31", "::1", "0:0:0:0:0:0:0:1", "::1/128", "0::1", "0000:0000:0000:0000:0000:0000:0000:0001", "::0001", "::1/127", "FF00::/8", "ff00::/8", "ff00:0::/8",
+                "Ff00:0:0:0:0:0:0:0/8", "::ffff:a00:1", "::a00:1", "0.0.0.0/0", "::/0", "0.0.0.0", "::", "10.0.0.1/032",
+            ],
+        ),
+        (
+            2,
+            &[
+                "1970-01-01", "1970-01-01T00:00:00Z", "1970-01-01T00:00:00.000Z", "1970-01-01T00:00:00+0000", "1970-01-01T00:00:00-0000", "1970-01-01T00:00:00.000-0000", "1970-01-01T01:00:00+0100", "1969-12-31T23:00:00-0100",
+                "1970-01-01T23:59:00+2359", "1969-12-31T00:01:00-2359", "1970-01-01T00:00:00.001Z", "1969-12-31T23:59:59.999Z", "1970-01-01T00:00:00+0001", "1970-01-01T00:00:00-0001", "1969-12-31T23:59:00-0001", "1970-01-02",
+                "1970-01-02T00:00:00+0000", "1970-01-02T23:59:00+2359", "1970-01-01T24:00:00Z", "1970-01-02T00:00:00+2400",
+            ],
+        ),
+        (
+            3,
+            &[
+                "0ms", "0s", "0d", "-0ms", "0d0h0m0s0ms", "-0d", "1d", "24h", "1440m", "86400s", "86400000ms", "0d24h", "23h60m", "23h59m60s", "23h59m59s1000ms", "-1d", "-24h", "-86400000ms", "1s", "1000ms", "0001s", "1ms", "-1ms", "1d1d",
+            ],
+        ),
+    ];
+    for (ty, list) in spell {
+        let name = TYS[ty];
+        for a in list {
+            for b in list {
+                push(&format!("spell-{name}-eq"), E::bin(BinOp::Eq, ctor_e(ty, a), ctor_e(ty, b)));
+                push(&format!("spell-{name}-neq"), E::bin(BinOp::Neq, ctor_e(ty, a), ctor_e(ty, b)));
+                push(&format!("spell-{name}-set2"), E::Set(vec![ctor_e(ty, a), ctor_e(ty, b)]));
+                push(&format!("spell-{name}-containsAll"), E::bin(BinOp::ContainsAll, E::Set(vec![ctor_e(ty, a)]), E::Set(vec![ctor_e(ty, b)])));
+                for c in list.iter().step_by(step) {
+                    push(&format!("spell-{name}-set3"), E::Set(vec![ctor_e(ty, a), ctor_e(ty, b), ctor_e(ty, c)]));
+                    push(&format!("spell-{name}-contains"), E::bin(BinOp::Contains, E::Set(vec![ctor_e(ty, a), ctor_e(ty, b)]), ctor_e(ty, c)));
+                }
+            }
+        }
+    }
+    // datetimes built by offset vs by string
+    for (s, ms) in [("1970-01-01", 0i64), ("1970-01-02", DAY), ("1969-12-31T23:59:59.999Z", -1), ("9999-12-31T23:59:59.999Z", 253_402_300_799_999), ("0000-01-01", -62_167_219_200_000)] {
+        for delta in [-1i64, 0, 1] {
+            push("spell-datetime-offset-eq", E::bin(BinOp::Eq, ctor_e(2, s), dt_e(ms + delta)));
+            push("spell-datetime-offset-set", E::Set(vec![ctor_e(2, s), dt_e(ms + delta), call("offset", vec![ctor_e(2, s), dur_e(delta)])]));
+        }
+    }
+    out
+}
+
+// ---------------------------------------------------------------------------------------------
+// driver
+// ---------------------------------------------------------------------------------------------
+
+fn replay(path: &str) -> i32 {
+    let doc: J = match std::fs::read_to_string(path).ok().and_then(|s| serde_json::from_str(&s).ok()) {
+        Some(d) => d,
+        None => {
+            eprintln!("cannot read replay file {path}");
+            return 2;
+        }
+    };
+    if doc["property"].as_str() != Some("C07") {
+        eprintln!("replay file is not a C07 case");
+        return 2;
+    }
+    let Ok(case) = serde_json::from_value::<Case>(doc["case"]["c"].clone()) else {
+        eprintln!("replay file holds no C07 case");
+        return 2;
+    };
+    if let Err(m) = oracle_selfcheck() {
+        eprintln!("MACHINERY ERROR: reference self-check failed: {m}");
+        return 2;
+    }
+    quiet_panics();
+    let p = Prep::new();
+    let mut l = Local::default();
+    println!("replaying `{}`", case.text());
+    let res = std::panic::catch_unwind(std::panic::AssertUnwindSafe(|| check_case(&case, &p, &mut l)));
+    match res {
+        Err(pn) => {
+            println!("  panic: {}", panic_msg(&pn));
+            println!("VIOLATION property=C07 replay={path}");
+            1
+        }
+        Ok(bad) => {
+            for (fp, what) in &bad {
+                println!("  [{fp}] {what}");
+            }
+            if bad.is_empty() {
+                println!("no mismatch on replay");
+                0
+            } else {
+                println!("VIOLATION property=C07 replay={path}");
+                1
+            }
+        }
+    }
+}
+
+pub fn run(tier: Tier, replay_file: Option<&str>) -> i32 {
+    if let Some(p) = replay_file {
+        return replay(p);
+    }
+    if let Err(m) = oracle_selfcheck() {
+        eprintln!("MACHINERY ERROR: reference self-check failed: {m}");
+        return 2;
+    }
+    // the operand value sets must be valid
+    for s in ip_values() {
+        if rx::parse_ip(s).is_none() {
+            eprintln!("MACHINERY ERROR: ip boundary value {s} is not valid for the reference");
+            return 2;
+        }
+    }
+    let ctx = Ctx::new("C07", tier);
+    quiet_panics();
+    let mut cases = gen_ctor(tier);
+    let n_ctor = cases.len();
+    cases.extend(gen_ops(tier));
+    let total = cases.len();
+    ctx.set_info("constructor_strings", json!(n_ctor));
+    ctx.set_info("operation_expressions", json!(total - n_ctor));
+    if ctx.seed != 0 && total > 0 {
+        let k = (ctx.seed as usize) % total;
+        cases.rotate_left(k);
+    }
+    cases.par_chunks(256).enumerate().for_each(|(ci, chunk)| {
+        let p = Prep::new();
+        let mut l = Local::default();
+        for (j, c) in chunk.iter().enumerate() {
+            let res = ctx.guard("C07 case", || c.to_json(), || check_case(c, &p, &mut l));
+            if let Some(bad) = res {
+                for (fp, what) in bad {
+                    ctx.violation(fp, what, c.to_json());
+                }
+            }
+            ctx.sample_at(ci * 256 + j, total, || json!({"case": c.text()}));
+        }
+        ctx.merge(l);
+    });
+    let n = tier.pick(5, 6);
+    ctx.finish(
+        "case = (constructor, argument string) or one operation expression over boundary values; non-trivial = the reference accepts the string, or the string is a boundary template / grid point / 1-char mutation of a valid string (not from the all-strings sweep), or the case is an operation expression",
+        json!({
+            "tier": tier.name(),
+            "decimal": {"all_strings_len": n, "alphabet": "01 9-.+ a", "templates": decimal_templates().len()},
+            "duration": {"all_strings_len": n, "alphabet": "019dhms-", "templates": duration_templates().len()},
+            "datetime": {"grid": datetime_grid(tier).len(), "grid_years": tier.pick(4, 8), "templates_and_mutations": datetime_templates().len()},
+            "ip": {"v4_grid": ip_grid(tier).len(), "v4_grid_middle_octets": tier.pick(5, 13), "templates_mutations_short_strings": ip_templates(tier).len(), "short_strings_len": n},
+            "operations": {"datetime_values": dt_values().len(), "duration_values": dur_values().len(), "decimal_values": dec_values().len(), "ip_values": ip_values().len(), "third_operand_step": tier.pick(3, 1)},
+            "paths": ["text+core evaluator (internal representation)", "RestrictedExpression::new_* in Context", "eval_expression"],
+        }),
+        &[
+            "refsem::ext parsers and arithmetic are the documented formats (hand-derived table and closed-form calendar cross-check run first; failure = exit 2)",
+            "overflow of offset / durationSince / toDate and every constructor rejection must be an extension error",
+            "ipaddr equality is (address, prefix); isLoopback / isMulticast = range containment in 127.0.0.0/8, ::1/128, 224.0.0.0/4, ff00::/8",
+            "isInRange is checked with exactly two operands",
+        ],
+        true,
+    )
 }
